@@ -412,21 +412,87 @@ def pad_spec(ctx):
 
     def cls1(p):
         return p.subst({c: C(1) for c in carry})
-    body = f.node.body
+    # evaluate the body once per residue class: a test on n % m is decided by the class (r = 0 / r > 0)
+    loc = {}
+    ev0 = ev
+
+    def evx(e):
+        if isinstance(e, ast.Name) and e.id in loc:
+            return loc[e.id]
+        if isinstance(e, ast.IfExp):
+            tv = truth(e.test)
+            if tv is None:
+                return None
+            return evx(e.body if tv else e.orelse)
+        if isinstance(e, ast.BinOp):
+            l, rr = evx(e.left), evx(e.right)
+            if l is None or rr is None:
+                return None
+            if isinstance(e.op, ast.Add):
+                return l + rr
+            if isinstance(e.op, ast.Sub):
+                return l - rr
+            if isinstance(e.op, ast.Mult):
+                return l * rr
+            if isinstance(e.op, ast.FloorDiv):
+                return T.floordiv(l, rr)
+            if isinstance(e.op, ast.Mod):
+                return T.mod(l, rr)
+        return ev0(e)
+
+    state = {'cls': 0}
+
+    def truth(t):
+        if isinstance(t, ast.UnaryOp) and isinstance(t.op, ast.Not):
+            v = truth(t.operand)
+            return None if v is None else not v
+        if isinstance(t, ast.Compare) and len(t.ops) == 1 and U(t.comparators[0]) == '0':
+            rem = evx(t.left)
+            if rem is None:
+                return None
+            red = cls0(rem) if state['cls'] == 0 else cls1(rem)
+            if state['cls'] == 0:
+                z = red.is_zero()
+            else:
+                # r > 0: a remainder r is positive; anything else must be decided syntactically
+                z = False if rem == r else (True if red.is_zero() else None)
+            if z is None:
+                return None
+            op = t.ops[0]
+            if isinstance(op, ast.Eq):
+                return z
+            if isinstance(op, (ast.NotEq, ast.Gt)):
+                return not z
+        if isinstance(t, ast.BinOp) and isinstance(t.op, ast.Mod):      # `if n % m:` truthiness of the remainder
+            return truth(ast.Compare(left=t, ops=[ast.NotEq()], comparators=[ast.Constant(value=0)]))
+        return None
+
+    def run_body(stmts):
+        for st_ in stmts:
+            if isinstance(st_, ast.Return):
+                return evx(st_.value) if st_.value is not None else None
+            if isinstance(st_, ast.Assign) and len(st_.targets) == 1 and isinstance(st_.targets[0], ast.Name):
+                loc[st_.targets[0].id] = evx(st_.value)
+                continue
+            if isinstance(st_, ast.If):
+                tv = truth(st_.test)
+                if tv is None:
+                    return None
+                res = run_body(st_.body if tv else st_.orelse)
+                if res is not None:
+                    return res
+                continue
+            if isinstance(st_, (ast.Expr, ast.Pass)):
+                continue
+            return None
+        return None
     results = {}
-    if len(body) == 1 and isinstance(body[0], ast.If):
-        t = body[0].test
-        rem = ev(t.left) if isinstance(t, ast.Compare) else None
-        if isinstance(t, ast.Compare) and isinstance(t.ops[0], ast.Eq) and U(t.comparators[0]) == '0' and rem == r:
-            r0 = [s for s in body[0].body if isinstance(s, ast.Return)]
-            r1 = [s for s in body[0].orelse if isinstance(s, ast.Return)]
-            if r0 and r1:
-                results = {0: ev(r0[0].value), 1: ev(r1[0].value)}
-    elif len(body) == 1 and isinstance(body[0], ast.Return):
-        v = ev(body[0].value)
-        results = {0: v, 1: v}
-    if not results or any(v is None for v in results.values()):
-        raise AnalysisError('pad(): body is not one of the recognised forms (if n % m == 0 ... / single return)')
+    for k in (0, 1):
+        state['cls'] = k
+        loc.clear()
+        results[k] = run_body(f.node.body)
+    if any(v is None for v in results.values()):
+        raise AnalysisError('pad(): the body does not evaluate over the residue classes of n % m')
     ok0 = cls0(results[0]) == cls0(spec)
     ok1 = cls1(results[1]) == cls1(spec)
     if ok0 and ok1:
